@@ -1,0 +1,69 @@
+//go:build verif
+
+// Contracts for the verifier in /verif (comment-only; compiled only with -tags verif).
+
+package ckd
+
+//@ func isOdd
+//@   props C06 C18
+//@   requires a != nil
+//@   ensures val(a) >= 0 ==> (result <==> val(a) % 2 == 1)
+
+//@ func paddedBytes
+//@   props C06 C18
+//@   requires 0 <= size && size <= 1048576
+//@   ensures len(src) >= size ==> result == src
+//@   ensures len(src) < size ==> (len(result) == size && fresh(result))
+
+//@ func paddedAppend
+//@   props C06 C18
+//@   requires 0 <= srcPaddedSize && srcPaddedSize <= 1048576
+//@   ensures len(src) <= srcPaddedSize ==> len(result) == len(dst) + srcPaddedSize
+//@   ensures len(src) > srcPaddedSize ==> len(result) == len(dst) + len(src)
+//@   ensures cap(dst) >= len(dst) + srcPaddedSize && len(src) <= srcPaddedSize ==> arr(result) == arr(dst)
+//@   skip frame
+//@   note writes only into the spare capacity of dst (or a fresh array)
+
+//@ func serializeCompressed
+//@   props C06 C18
+//@   requires publicKeyX != nil && publicKeyY != nil
+//@   ensures [C18.compressed-key-is-33-bytes] len(result) >= 33 && ((0 <= val(publicKeyX) && val(publicKeyX) < pow2(256)) ==> len(result) == 33)
+
+//@ func calcHash
+//@   props C06 C18
+//@   requires !isnil(hasher)
+//@   modifies hstate(hasher)
+//@   ensures fresh(result) && len(result) == hashlen(hkind(hasher))
+
+//@ func hash160
+//@   props C06 C18
+//@   ensures fresh(result) && len(result) == 20
+
+// BIP32 public child derivation. The HMAC value itself is not specified; what is
+// proved is everything the property says about the relation between the inputs
+// and the two results.
+//@ func DeriveChildKey
+//@   props C06 C18
+//@   requires pk != nil && !isnil(curve) && okCurve(curve) && len(pk.ChainCode) <= 1048576
+//@   requires [parent-key-present] pk.PublicKey.X != nil && pk.PublicKey.Y != nil
+//@   ensures result2 != nil ==> (result0 == nil && result1 == nil)
+//@   ensures [C18.hardened-index-refused] index >= 2147483648 ==> result2 != nil
+//@   ensures [C18.maximum-depth-refused] pk.Depth == 255 ==> result2 != nil
+//@   ensures [C18.parent-not-on-the-curve-refused] !oncurve(curve, val(pk.PublicKey.X), val(pk.PublicKey.Y)) ==> result2 != nil
+//@   ensures [C18.offset-is-a-valid-scalar] result2 == nil ==> (result0 != nil && 0 < val(result0) && val(result0) < curveN(curve))
+//@   ensures [C18.child-is-parent-plus-offset-times-G] result2 == nil ==> (result1 != nil && fresh(result1) && result1.PublicKey.X != nil && result1.PublicKey.Y != nil && val(result1.PublicKey.X) == ecaddx(curve, val(pk.PublicKey.X), val(pk.PublicKey.Y), ecbasex(curve, val(result0)), ecbasey(curve, val(result0))) && val(result1.PublicKey.Y) == ecaddy(curve, val(pk.PublicKey.X), val(pk.PublicKey.Y), ecbasex(curve, val(result0)), ecbasey(curve, val(result0))))
+//@   ensures [C18.node-bookkeeping] result2 == nil ==> (result1.Depth == pk.Depth + 1 && result1.ChildIndex == index && len(result1.ChainCode) == 32 && len(result1.ParentFP) == 4 && result1.Version == pk.Version)
+//@   ensures [C18.parent-unchanged] val(pk.PublicKey.X) == old(val(pk.PublicKey.X)) && val(pk.PublicKey.Y) == old(val(pk.PublicKey.Y)) && pk.Depth == old(pk.Depth)
+
+//@ func DeriveChildKeyFromHierarchy
+//@   props C06 C18
+//@   requires pk != nil && !isnil(curve) && okCurve(curve) && mod != nil && val(mod) > 0 && len(pk.ChainCode) <= 1048576 && 0 <= pk.Depth && pk.Depth <= 255
+//@   requires [parent-key-present] pk.PublicKey.X != nil && pk.PublicKey.Y != nil
+//@   ensures result2 != nil ==> (result0 == nil && result1 == nil)
+//@   ensures [C18.a-hardened-index-anywhere-on-the-path-is-refused] (exists k in 0..len(indicesHierarchy) :: indicesHierarchy[k] >= 2147483648) ==> result2 != nil
+//@   ensures [C18.empty-path-is-the-identity] (len(indicesHierarchy) == 0) ==> (result2 == nil && result1 == pk && val(result0) == 0)
+//@   ensures [C18.accumulated-offset-is-reduced] (result2 == nil && len(indicesHierarchy) > 0) ==> (result0 != nil && 0 <= val(result0) && val(result0) < val(mod))
+//@   ensures [C18.depth-grows-by-the-path-length] result2 == nil ==> (result1 != nil && result1.Depth == (pk.Depth + len(indicesHierarchy)) % 256)
+//@   loop 0 invariant k != nil && ilNum != nil && 0 <= val(ilNum) && ($iter > 0 ==> val(ilNum) < val(mod)) && ($iter == 0 ==> (k == pk && val(ilNum) == 0)) && mod_ != nil && val(mod_) == val(mod) && ($iter > 0 ==> (fresh(k) && fresh(ilNum)))
+//@   loop 0 invariant len(k.ChainCode) <= 1048576 && k.PublicKey.X != nil && k.PublicKey.Y != nil
+//@   loop 0 invariant k.Depth == (pk.Depth + $iter) % 256 && (forall q in 0..$iter :: indicesHierarchy[q] < 2147483648)
